@@ -157,7 +157,7 @@ class Model:
 
 
 class State:
-    __slots__ = ("doc", "model", "exc", "diverged", "pre", "depth", "saved", "last_target", "last_kind", "opened_as", "others", "deleted")
+    __slots__ = ("doc", "model", "exc", "diverged", "pre", "depth", "saved", "last_target", "last_kind", "opened_as", "others", "deleted", "pretty")
 
 
 def seed_specs():
@@ -203,6 +203,7 @@ class PackageMachine:
         st.last_kind = None
         st.others = []
         st.deleted = False
+        st.pretty = False
         kind, name = seed["kind"], seed["name"]
         if kind == "template":
             st.doc = Document(name)
@@ -251,11 +252,13 @@ class PackageMachine:
             ops += [("touch", "content"), ("touch", "styles"), ("touch", "meta"), ("touch", "manifest"), ("touch", "settings")]
             ops += [("edit_body",), ("edit_meta",), ("insert_style",), ("set_part_xml",), ("set_part_bin",), ("del_part_bin",)]
             ops += [("add_file", "path"), ("add_file", "io"), ("clone",)]
-            ops += [("save", "zip"), ("save", "bytesio"), ("save", "folder"), ("save_xml",)]
+            ops += [("save", "zip"), ("save", "bytesio"), ("save", "folder"), ("save", "folder-default"), ("save", "zip-pretty"), ("save_xml",)]
             ops = [o for o in ops if not (o[0] == "save_xml" and getattr(st, "deleted", False))]
         elif alphabet == "c04":
             ops += [("add_file", "path"), ("add_file", "io"), ("add_file", "io2"), ("del_part_bin",), ("del_part_added",), ("image_frame",), ("merge_styles",), ("clone",), ("edit_body",), ("touch", "manifest")]
             ops += [("save", "zip"), ("save", "bytesio")]
+        elif alphabet == "c04m":
+            ops += [("add_file", "path"), ("add_file", "io"), ("del_part_added",), ("del_part_bin",), ("save", "zip")]
         if st.saved:
             ops.append(("reopen",))
         return ops
@@ -407,6 +410,7 @@ class PackageMachine:
         e.set("{%s}full-path" % NS["manifest"], path)
 
     def _save(self, st, kind):
+        st.pretty = False
         d = tmpdir()
         base = os.path.join(d, f"out_{st.depth}")
         if kind == "zip":
@@ -422,6 +426,18 @@ class PackageMachine:
             if os.path.isdir(target + ".folder"):
                 shutil.rmtree(target + ".folder")
             st.doc.save(target, packaging="folder", pretty=False)
+        elif kind == "folder-default":
+            target = base
+            if os.path.isdir(target + ".folder"):
+                shutil.rmtree(target + ".folder")
+            st.doc.save(target, packaging="folder")  # pretty by default
+            kind = "folder"
+            st.pretty = True
+        elif kind == "zip-pretty":
+            target = io.BytesIO()
+            st.doc.save(target, pretty=True)
+            kind = "bytesio"
+            st.pretty = True
         elif kind == "xml":
             target = io.BytesIO()
             st.doc.save(target, packaging="xml", pretty=False)
@@ -531,7 +547,15 @@ class PackageMachine:
                     strip_generator(g)
                     e2 = copy.deepcopy(v)
                     strip_generator(e2)
-                    if c14n(g) != c14n(e2):
+                    if st.pretty:
+                        # an indenting save: equal up to white space that consumers ignore
+                        from ..checks.c11 import doc_view
+
+                        if doc_view(g) != doc_view(e2):
+                            gp, gs = doc_view(g)
+                            ep, es = doc_view(e2)
+                            fail("xml-part-readable-content", f"{n}: same paragraphs, elements, attributes", "paragraph text differs" if gs == es else "markup differs", f"xml-part-differs-under-pretty:{n}")
+                    elif c14n(g) != c14n(e2):
                         # which way does it differ?
                         gt = b"".join(etree.tostring(g, method="text", encoding="utf-8").split())
                         et = b"".join(etree.tostring(e2, method="text", encoding="utf-8").split())
@@ -544,7 +568,7 @@ class PackageMachine:
                     d2 = Document(st.last_target)
                 else:
                     d2 = Document(st.last_target + ".folder")
-                if st.model.parts.get("content.xml", ("", None))[0] == "xml":
+                if st.model.parts.get("content.xml", ("", None))[0] == "xml" and not st.pretty:
                     r2 = d2.content.root._Element__element
                     e2 = copy.deepcopy(st.model.parts["content.xml"][1])
                     if c14n(r2) != c14n(e2):
@@ -601,15 +625,26 @@ class PackageMachine:
 
     # ------------------------------------------------------------ key etc.
     def key(self, st):
-        parsed = tuple(sorted(getattr(st.doc, "_Document__xmlparts", {}).keys()))
+        """Implementation state (every parsed tree, every loaded part) + model state."""
+        xp = getattr(st.doc, "_Document__xmlparts", {})
+        parsed = []
+        for path in sorted(xp):
+            part = xp[path]
+            tree = getattr(part, "_XmlPart__tree", None) if part is not None else None
+            if tree is not None:
+                r = copy.deepcopy(tree.getroot())
+                strip_generator(r)
+                parsed.append((path, digest(etree.tostring(r))))
+            else:
+                parsed.append((path, None))
         parts = getattr(st.doc.container, "_Container__parts", {})
-        loaded = tuple(sorted((k, v is None) for k, v in parts.items()))
+        loaded = tuple(sorted((k, None if v is None else digest(v)) for k, v in parts.items() if k != "meta.xml"))
         mk = tuple((n, k) for n, (k, _) in sorted(st.model.parts.items()))
         try:
             mkey = st.model.key() if not any(k.startswith("dirty") for _, (k, _) in st.model.parts.items()) else mk
         except Exception:
             mkey = mk
-        return digest(parsed, loaded, mkey, st.saved, st.last_kind, st.opened_as, st.exc, len(st.others))
+        return digest(tuple(parsed), loaded, mkey, st.saved, st.last_kind, st.opened_as, st.exc, len(st.others))
 
     def outcome(self, st):
         return (st.exc is None, st.last_kind)
